@@ -14,6 +14,7 @@ mcAdvC == {}
 F_D(sid, n, es, pad) == [t |-> "DATA", sid |-> sid, es |-> es, n |-> n, tag |-> "B", pad |-> pad]
 mcAdvS ==
   {<<F_D(sid, n, FALSE, -1)>> : sid \in {1, 3}, n \in {16383, 16384, 1, 0}}
+  \cup {<<F_D(1, 0, FALSE, 100)>>, <<F_D(3, 0, TRUE, 0)>>}        \* no payload, only padding: still flow-controlled octets
   \cup {<<F_D(1, 16380, FALSE, 2)>>, <<F_D(1, 16381, FALSE, 2)>>, <<F_D(5, 16383, TRUE, -1)>>, <<F_D(1, 16382, FALSE, -1), F_D(3, 2, FALSE, -1)>>}
   \cup {<<[t |-> "WU", sid |-> 0, inc |-> 5]>>}
 mcSetup == <<
